@@ -16,7 +16,7 @@ from vlib import harness
 
 ID = "C18"
 LEVEL = "exploration"
-RULE = ("a case is one store of 0-12 entries (real cached calls of 1-3 functions returning bytes of chosen sizes - in a third of the stores one of them is defined inside another cached function, so its entries live below that function's directory - plus empty "
+RULE = ("a case is one store (in a process time zone drawn from UTC, Asia/Tokyo, Etc/GMT+5, Europe/Paris, America/New_York; in the two DST zones access times often straddle the repeated hour at the end of DST) of 0-12 entries (real cached calls of 1-3 functions returning bytes of chosen sizes - in a third of the stores one of them is defined inside another cached function, so its entries live below that function's directory - plus empty "
         "32-hex 'zero-size' entries), access times set with os.utime (ties, increasing, seconds to months), and one "
         "(bytes_limit, items_limit, age_limit) triple from {None, 0, exact fit, fit-1, half, '1K', '0.5K', huge} x "
         "{None, 0, 1, n-1, n, n+1} x {None, 0s, between two entries, older than all, a fractional limit 0.45 s away from one entry}; distinct_nontrivial counts distinct "
@@ -57,6 +57,15 @@ def blob3(i, n, _nested=False):
 
 
 nested = blob3(0, 0, _nested=True)
+
+
+def hexnamed(i, n):
+    CALLS.append(("hexnamed", i, n))
+    return b"h" * n
+
+
+# a function whose directory name merely BEGINS like an entry id (32 hex characters)
+hexnamed.__name__ = hexnamed.__qualname__ = "abcdef0123456789abcdef0123456789_fn"
 
 
 def cases(tier, seed):
@@ -104,11 +113,19 @@ def run_case(case, ctx):
 
     rng = harness.rng_for(ctx.seed, ID, case["i"])
     d = harness.mkscratch("vjl-c18-")
+    # the process time zone: access times are instants, their order and age do not depend on how the local clock labels them
+    tz = rng.choice([None, None, None, "Asia/Tokyo", "Etc/GMT+5", "Europe/Paris", "America/New_York"])
+    if tz:
+        os.environ["TZ"] = tz
+        ctx.count("stores_in_a_non_utc_time_zone")
+    else:
+        os.environ.pop("TZ", None)
+    time.tzset()
     try:
         with warnings.catch_warnings():
             warnings.simplefilter("ignore")
             mem = Memory(d, verbose=0, compress=rng.choice([False, False, True]))
-            fs = {"blob": mem.cache(blob), "blob2": mem.cache(blob2), "blob3": mem.cache(blob3), "nested": mem.cache(nested)}
+            fs = {"blob": mem.cache(blob), "blob2": mem.cache(blob2), "blob3": mem.cache(blob3), "nested": mem.cache(nested), "hexnamed": mem.cache(hexnamed)}
         if case["i"] % 3 == 0:
             # the enclosing function records its code first: its first call on a directory that already holds the
             # nested function's entries would (legitimately) wipe that directory
@@ -119,7 +136,7 @@ def run_case(case, ctx):
         del CALLS[:]
         keys = []
         for i in range(n):
-            fn = rng.choice(["blob", "blob", "blob2"] if case["i"] % 3 else ["blob", "blob3", "nested", "nested"])
+            fn = rng.choice((["blob", "blob", "blob2"] if case["i"] % 5 else ["blob", "hexnamed", "hexnamed"]) if case["i"] % 3 else ["blob", "blob3", "nested", "nested"])
             fs[fn](i, sizes[i])
             keys.append((fn, i, sizes[i]))
         assert len(CALLS) == n
@@ -138,11 +155,17 @@ def run_case(case, ctx):
             zdirs.append(zd)
         now = time.time()
         mode = rng.choice(["ties", "increasing", "spread", "spread"])
+        fold = {"Europe/Paris": 1761440400, "America/New_York": 1762063200}.get(tz)     # end of DST 2025: the local hour before is repeated
+        if fold and rng.random() < 0.6:
+            mode = "dst-fold"
+            ctx.count("stores_with_access_times_around_the_end_of_dst")
         all_dirs = sorted(dirs) + zdirs
         rng.shuffle(all_dirs)
         ages = {}
         for k, p in enumerate(all_dirs):
-            if mode == "ties":
+            if mode == "dst-fold":
+                a = now - (fold + rng.choice([-1, 1]) * rng.randrange(60, 3300) + k)
+            elif mode == "ties":
                 a = rng.choice([3600, 3600, 86400])
             elif mode == "increasing":
                 a = 600 + 137 * k
@@ -187,6 +210,7 @@ def run_case(case, ctx):
             lo, hi = sorted_ages[j], sorted_ages[j + 1]
             if hi - lo > 130:
                 age_choices.append((lo + hi) / 2)
+        age_choices.append(8e10)       # some 2500 years: nothing is that old
         if sorted_ages:
             age_choices.append(sorted_ages[-1] + 86400)
             if sorted_ages[0] > 100:
@@ -251,7 +275,7 @@ def run_case(case, ctx):
             except Exception as e:  # noqa
                 ctx.violation("entry-unusable-after-reduce", f"{'survivor' if p in S else 'evicted'} entry raises {type(e).__name__}: {e}", desc)
                 return
-            want = {"blob": b"x", "blob2": b"y", "blob3": b"z", "nested": b"n"}[fn] * sz
+            want = {"blob": b"x", "blob2": b"y", "blob3": b"z", "nested": b"n", "hexnamed": b"h"}[fn] * sz
             if v != want:
                 ctx.violation("wrong-value-after-reduce", f"entry {fn}({i},{sz}) returns {v[:20]!r}[{len(v)}]", desc)
                 return
@@ -269,4 +293,6 @@ def run_case(case, ctx):
             desc["evicted"] = sorted((round(ages[p], 1), inv[p][0]) for p in E)
             ctx.sample(desc)
     finally:
+        os.environ.pop("TZ", None)
+        time.tzset()
         shutil.rmtree(d, ignore_errors=True)
